@@ -307,6 +307,22 @@ func init() {
 		}
 		return smt.Select(p.Plain, termArg(in, a[1]))
 	}
+	intrinsics["vGCMTagOK"] = func(in *Interp, fn *ssa.Function, a []Value) Value {
+		name := constStr(in, a[0], "vGCMTagOK name")
+		p, _ := in.Ghost["cipherplan:"+name].(*cipherPlan)
+		if p == nil {
+			in.end("internal", "vGCMTagOK: no plan %s", name)
+		}
+		return p.GCMOK
+	}
+	intrinsics["vIsGCMOpened"] = func(in *Interp, fn *ssa.Function, a []Value) Value {
+		pt, _ := in.Ghost["gcm.opened"].(*SliceV)
+		out := a[0].(*SliceV)
+		if pt == nil {
+			return smt.False
+		}
+		return smt.And(smt.Eq(in.stringOfBytes(out), in.stringOfBytes(pt)), smt.Eq(in.lenOf(out), in.lenOf(pt)))
+	}
 	intrinsics["vCipherLen"] = func(in *Interp, fn *ssa.Function, a []Value) Value {
 		s := termArg(in, a[0])
 		return BLen(B64D("std", s))
